@@ -55,6 +55,7 @@ FAMILY_FUNCTIONS = {
     'sym': ['Unit::from_symbol', 'Quantity::unit_from_symbol'],
     'symc': ['Unit::from_symbol', 'Quantity::unit_from_symbol'],
     'syma': ['Unit::from_symbol', 'Quantity::unit_from_symbol'],
+    'symx': ['Unit::from_symbol', 'Quantity::unit_from_symbol'],
     'noref': ['Quantity::add', 'Quantity::sub', 'Quantity::div', 'Quantity::eq', 'Quantity::partial_cmp', 'generated operators of types without reference unit'],
     'total': ['HasRefUnit::convert', 'HasRefUnit::equiv_amount', 'HasRefUnit::eq', 'HasRefUnit::partial_cmp', 'HasRefUnit::add', 'HasRefUnit::sub',
               'HasRefUnit::div', 'generated scalar operators and constructors', 'Rate::new', 'Rate::from_qty_vals', 'Rate::reciprocal',
